@@ -390,11 +390,18 @@ pub fn gen_pi_data(rng: &mut Rng) -> Option<String> {
     let mut s = String::new();
     for _ in 0..n {
         let c = strings::xml_char(rng);
-        if c == '?' || c == '>' || c.is_whitespace() {
+        if c == '?' || c == '>' {
             s.push('d');
+        } else if c.is_whitespace() {
+            // white space inside and at the END of PI data is data (only the separator after the
+            // target is not): the creation API must keep it as the parser does (seed C20g)
+            if s.is_empty() { s.push('d') } else { s.push(if c == '\t' { '\t' } else { ' ' }) }
         } else {
             s.push(c);
         }
+    }
+    if rng.chance(1, 6) {
+        s.push(' ');
     }
     Some(s)
 }
